@@ -214,7 +214,7 @@ def run(tape, prop, tier):
             h = Harness(r, loop)
             p, items, desc = build_pipeline(tape, h, 'p', K, T, faults_on)
             workload['pipeline'] = desc
-            c0 = tape.choice((1, 2, 3, 4), 'c0')
+            c0 = tape.choice((1, 2, 3, 4, 1, 2, 0), 'c0')      # 0: paused before process() is even called
             p.concurrency = c0
             h.concurrency_now = c0
             workload['c0'] = c0
